@@ -144,7 +144,7 @@ func runC04(c *Ctx) error {
 	nRuns := c.Pick(260, 3000)
 	for run := 0; run < nRuns; run++ {
 		cf := cfgs[c.Rng.IntN(len(cfgs))]
-		if c.Rng.IntN(3) == 0 {
+		if c.Rng.IntN(3) == 0 || run < 30 {
 			cf = cfgs[2]
 		}
 		w := newRWorld()
@@ -495,6 +495,10 @@ func runC04(c *Ctx) error {
 		// a second connection with one fault
 		fault := faults[c.Rng.IntN(len(faults))]
 		target := c.Rng.IntN(6)
+		// the first runs go through the faults that depend on WHICH message is hit, once per message
+		if systematic := []string{"duplicate", "swap", "drop", "reflect", "replay-earlier-connection"}; run < 6*len(systematic) {
+			fault, target = systematic[run/6], run%6
+		}
 		lastSent = earlier
 		// a request is stamped one millisecond in the past: let the clock pass the first connection's frames
 		time.Sleep(4 * time.Millisecond)
